@@ -75,8 +75,16 @@ fn run<const K: usize>(case: u64, rng: &mut Rng, ev: &mut Ev) {
     cg.max_depth = rng.below(if rng.big { 5 } else { 4 });
     cg.allow_leaf_root = true;
     cg.p_missing = if rng.chance(0.4) { 0.25 } else { 0.0 };
-    let fs = gen::spec(rng, &cf);
-    let gs = gen::spec(rng, &cg);
+    let mut fs = gen::spec(rng, &cf);
+    let mut gs = gen::spec(rng, &cg);
+    // 8 % (exact regimes): f works in other units - f' = s.f and g' = g(./s) with s a power of two between
+    // 2^-40 and 2^30; g'(f'(x)) = g(f(x)), but the composed predicates have coefficients of magnitude s
+    if rg.is_exact() && rng.chance(0.08) {
+        let sc = 2f64.powi(*rng.pick(&[-40, -30, -20, 20, 30]));
+        fs.scale_output(sc);
+        gs.scale_input(sc);
+        ev.inc("cases_with_rescaled_units");
+    }
     let scr_f = rng.chance(0.5);
     let mut f = gen::build::<K>(&fs, rng, scr_f);
     let scr_g = rng.chance(0.5);
